@@ -932,9 +932,10 @@ class Fn:
             term = '(let %s := %s in\n  %s)' % (nm, e0, term)
             d = conj(d0, None if d is None else '(let %s := %s in %s)' % (nm, e0, d))
         rt = self.result_type or rt
-        params = [(p[0], 'bool' if p[1] == ('b',) else 'Z') for p in self.params] + [(p, 'Z') for p in self.used_fields]
+        tyof = getattr(self, 'coq_type', lambda nm, ct: 'bool' if ct == ('b',) else 'Z')  # hook: cxx2v_mem.MemFn
+        params = [(p[0], tyof(p[0], p[1])) for p in self.params] + [(p, tyof(p, None)) for p in self.used_fields]
         ps = ' '.join('(%s : %s)' % p for p in params)
-        res = 'bool' if (rt and rt[0] == 'b') else 'Z'
+        res = getattr(self, 'result_coq', None) or ('bool' if (rt and rt[0] == 'b') else 'Z')
         out = 'Definition %s %s : %s :=\n  %s.\n\n' % (self.name, ps, res, term)
         out += 'Definition %s_defined %s : bool :=\n  %s.\n\n' % (self.name, ps, d or 'true')
         return out
